@@ -5,6 +5,7 @@ import (
 	"math/rand"
 	"os"
 	"path/filepath"
+	"sort"
 	"strings"
 )
 
@@ -181,7 +182,12 @@ func PlantAround(t *Target, size int64, k string, L int, rng *rand.Rand) {
 		cands[q-1] = true
 		cands[rng.Int63n(q)] = true
 	}
+	var ns []int64
 	for n := range cands {
+		ns = append(ns, n)
+	}
+	sort.Slice(ns, func(i, j int) bool { return ns[i] < ns[j] })
+	for _, n := range ns {
 		if n < 0 || n > 900_000_000 {
 			continue
 		}
@@ -211,7 +217,7 @@ func inTree(x TileID, size int64) bool {
 // to write that very path.
 func plantFree(t *Target, size int64, x TileID, rng *rand.Rand) {
 	for d := int64(1); d <= 3; d++ {
-		if inTree(x, size+d) {
+		if inTree(x, size+d) && !inTree(x, size) {
 			return
 		}
 	}
